@@ -173,4 +173,25 @@ PROPS = {
         'must_observe': ['render_end_events', 'unknown_reference_injections', 'matrix_shapes_completed', 'renders_ok', 'renders_err'],
         'case_budget_ms': 60000,
     },
+    'C10': {
+        'level': 'exploration',
+        'technique': 'history monitor against a sequential model of the template set: snapshot comparison (hook digest of all derived state + public observables) after every failed call, fresh-instance comparison after every successful call and reconfiguration',
+        'claim': 'Histories of 1-25 calls over 9 names and 35 template kinds: single and batched adds, valid and invalid in every listed way (syntax error early/late, missing parent, extends and include cycles, unknown filter/test/function/component/include, '
+                 'duplicate component at equal priority, orphan block, duplicate name inside a batch), replacements of parents, include targets, component providers and fallback-shadowed templates, autoescape_on interleaved, 0-2 fallback prefixes. '
+                 'After each failed call the digest (parents, autoescape flags, size hints, block lineage origins, global component table, configuration) and the observables (names, renders, block renders, component renders and definitions) must equal the pre-call snapshot; '
+                 'after each successful call and each reconfiguration they must equal those of a fresh instance given the model\'s set in one shuffled batch, with the suffixes configured before or after the add.',
+        'note': 'errors are compared by their first line; the digest identifies chunks by origin template and length (instruction listings are not stable across compilations because keyword arguments are compiled in hash order)',
+        'rule': "one evaluation = one add call or one fresh-instance build; a cell = (failure message class, batch size, replacing/new names) for failed calls and (set size, prefixes, suffix-before/after) for fresh comparisons",
+        'must_observe': ['failed_calls_checked_for_rollback', 'fresh_instance_comparisons', 'successful_calls', 'autoescape_reconfigurations'],
+    },
+    'C11': {
+        'level': 'exploration',
+        'technique': 'independent graph oracle (exact-then-prefix name resolution, plain DFS for cycles) compared with the engine verdict and error kind on generated extends/include digraphs; every accepted set rendered in a supervised child process with a CPU watchdog',
+        'claim': 'Random digraphs on 1-10 templates (<= 1 extends edge per node; include edges at top level, in dead branches, captures, component bodies, loops, blocks, filter sections and else branches), self-loops, cycles of length 2-10 entered from a tail, '
+                 'dangling targets, targets reachable only through a fallback prefix, exact-vs-prefix shadowing, acyclic include and extends chains of depth 1-32 (deterministic sweep), and the mixed family (include edges inside blocks of templates in an extends relation, with super()). '
+                 'The engine must accept exactly the graphs the oracle finds sound and reject the others with an error kind in the oracle\'s admissible set; every template of every accepted set is then rendered: text or an error, never a dead process or a CPU-budget overrun.',
+        'note': 'when several faults coexist any corresponding kind is accepted; termination is decided as bounded progress (20 s CPU per case, confirmed alone with 10x); stack verdicts for an 8 MiB stack and the optimised build',
+        'rule': "one evaluation = one registration or one render; a cell = (shape class incl. cycle length/tail or chain depth, engine verdict, set of include placements, prefix in use)",
+        'must_observe': ['graphs_accepted', 'graphs_rejected', 'renders_supervised'],
+    },
 }
